@@ -191,6 +191,9 @@ def _weights_and_samplers(ctx, m, f, loop, aug, branch, cname) -> None:
                 src2 = g.generators[0].iter.args[1]
                 r2 = D.reaching_value(f, src2, src2.id) if isinstance(src2, ast.Name) else None
                 same_comp = r2 is not None and norm(r2[1]) == f"self.get_extra_parameters({comp})"
+                # the weight loop pops "n" out of the translated dictionaries: the sampler needs a fresh translation
+                if same_comp and isinstance(src2, ast.Name) and src2.id == src and "pop(" in norm(muls[0].value):
+                    same_comp = any(r2[0] is st for st in ast.walk(branch))
                 oks = isinstance(c, ast.Call) and norm(c.func) == s and _kw(c) == {"n": f"{ep2}.pop('n')", "**": ep2} and same_comp
         r1 = None
         for n in loop.body:
